@@ -867,6 +867,15 @@ def native_method_call(I, name, recv, args, kw):
             except IndexError as e:
                 I.raise_py(IndexError, *e.args)
         if name == 'insert':
+            I.path.event('list.insert', id(recv), args[0], args[1], len(recv))
+            if isinstance(args[0], SInt):
+                n = len(recv)
+                for k in range(-n - 1, n + 2):
+                    if I.path.branch(args[0].t == k):
+                        recv.insert(k, args[1])
+                        return None
+                recv.insert(n if I.path.branch(args[0].t > 0) else 0, args[1])
+                return None
             recv.insert(args[0], args[1])
             return None
         if name in ('count', 'index', 'remove'):
